@@ -58,6 +58,7 @@ Require Import Coq.Strings.String Coq.Strings.Ascii.
 Require Import RIO.Base RIO.TokMonad RIO.HtmlTok RIO.BodyText RIO.HtmlFilter RIO.ChainProofs RIO.BodyProofs RIO.CodecChain RIO.C03Run.
 Require Import RIO.Dom RIO.HtmlTokens RIO.HtmlBridge RIO.HtmlInsert RIO.HtmlList RIO.HtmlCompose RIO.HtmlGenVocab.
 Require RIO.HtmlTokProofs RIO.HtmlListFull.
+Require Import RIO.TablesTie RIOGen.ExtTables.
 Close Scope N_scope.
 Open Scope string_scope.
 
@@ -308,6 +309,16 @@ Proof.
     unfold gfill. cbn [app In]. tauto.
 Qed.
 
+
+(* ---- TIE TO THE SOURCE (translator): VOID_ELEMENTS (src/filter/html_filter_body.rs) and the action names of
+   HtmlBodyVisitor::new (src/filter/html_body_action/mod.rs) are lifted on every run; the model's is_void decides exactly
+   the names the source lists now, and the three visitors are bound to the three action names the harness decodes. *)
+Theorem C15_tables_void_elements : forall name : str, mem_str name ext_void_elements = is_void name.
+Proof. unfold is_void. apply same_names_mem. vm_compute. reflexivity. Qed.
+
+Theorem C15_tables_html_visitors : ext_html_visitors = model_html_visitors.
+Proof. vm_compute. reflexivity. Qed.
+
 Print Assumptions C15_compose.
 Print Assumptions C15_token_level.
 Print Assumptions C15_reference_is_generator_edit.
@@ -323,3 +334,5 @@ Print Assumptions C15_generated.
 Print Assumptions C15_list.
 Print Assumptions C15_instance_generated.
 Print Assumptions C15_list_full.
+Print Assumptions C15_tables_void_elements.
+Print Assumptions C15_tables_html_visitors.
